@@ -977,8 +977,11 @@ impl Interpreter {
             (None, None)
         };
 
-        // All imports satisfied - set up import bindings first
-        self.setup_import_bindings(&program)?;
+        // All imports satisfied - set up import bindings first (this runs the body of an
+        // internal source module on first use)
+        if let Err(error) = self.setup_import_bindings(&program) {
+            return Err(self.materialize_thrown_error(error));
+        }
 
         // Compile the program to bytecode
         let chunk = if let Some(ref path) = module_path {
@@ -1496,8 +1499,11 @@ impl Interpreter {
             (None, None)
         };
 
-        // All imports satisfied - set up import bindings first
-        self.setup_import_bindings(&program)?;
+        // All imports satisfied - set up import bindings first (this runs the body of an
+        // internal source module on first use)
+        if let Err(error) = self.setup_import_bindings(&program) {
+            return Err(self.materialize_thrown_error(error));
+        }
 
         // Compile the program to bytecode
         let chunk = if let Some(ref path) = module_path {
@@ -1605,7 +1611,12 @@ impl Interpreter {
 
         // Execute any pending modules before setting up the main program
         // This will execute in topological order (dependencies first)
-        let pending_module_unprovided = self.process_pending_modules()?;
+        // An uncaught error in a dependency's body reaches the host in the same shape as one
+        // thrown by the entry program (not as an opaque thrown value)
+        let pending_module_unprovided = match self.process_pending_modules() {
+            Ok(unprovided) => unprovided,
+            Err(error) => return Err(self.materialize_thrown_error(error)),
+        };
         if !pending_module_unprovided.is_empty() {
             // Pending modules have dependencies the host hasn't provided yet
             self.pending_program = Some(program);
@@ -1633,8 +1644,11 @@ impl Interpreter {
             (None, None)
         };
 
-        // All imports satisfied - set up import bindings first
-        self.setup_import_bindings(&program)?;
+        // All imports satisfied - set up import bindings first (this runs the body of an
+        // internal source module on first use)
+        if let Err(error) = self.setup_import_bindings(&program) {
+            return Err(self.materialize_thrown_error(error));
+        }
 
         // Compile the program to bytecode
         let chunk = if let Some(ref path) = module_path {
